@@ -420,8 +420,8 @@ func Reach(fn *ssa.Function, from ssa.Instruction, target func(ssa.Instruction) 
 func Returns(fn *ssa.Function) []*ssa.Return {
 	var out []*ssa.Return
 	for _, b := range fn.Blocks {
-		if len(b.Instrs) == 0 {
-			continue
+		if len(b.Instrs) == 0 || b == fn.Recover {
+			continue // the recover block's synthetic return is not a source-level return
 		}
 		if r, ok := b.Instrs[len(b.Instrs)-1].(*ssa.Return); ok {
 			out = append(out, r)
@@ -744,4 +744,37 @@ func UsesValue(in ssa.Instruction, v ssa.Value) bool {
 		}
 	}
 	return false
+}
+
+// RetVal returns the i'th value returned by ret, looking through go/ssa's
+// defer-spilled results (in a function with defers the results are stored to
+// local cells, `rundefers` runs, and the cells are re-loaded for the return).
+func RetVal(ret *ssa.Return, i int) ssa.Value {
+	if i >= len(ret.Results) {
+		return nil
+	}
+	v := ret.Results[i]
+	u, ok := v.(*ssa.UnOp)
+	if !ok || u.Op != token.MUL {
+		return v
+	}
+	al, ok := u.X.(*ssa.Alloc)
+	if !ok {
+		return v
+	}
+	// closest preceding store to the cell in the same block
+	b := ret.Block()
+	var last ssa.Value
+	for _, in := range b.Instrs {
+		if in == ssa.Instruction(u) {
+			break
+		}
+		if st, ok := in.(*ssa.Store); ok && st.Addr == al {
+			last = st.Val
+		}
+	}
+	if last != nil {
+		return last
+	}
+	return v
 }
